@@ -19,8 +19,10 @@ rm -rf $OUT/demo; mkdir -p $OUT/demo; (cd $DEMO && tar cf - --exclude=target --e
 cp $WT/seed/meta.json $OUT/agent_meta.json 2>/dev/null
 echo "== my check against it"
 git -C /repo apply $OUT/patch.diff || { echo "patch does not apply to /repo"; exit 3; }
+cp /verif/evidence/$PROP.json /tmp/seed_evidence_keep.json 2>/dev/null
 (cd /verif && bin/check $PROP --tier quick > /tmp/seed_check.log 2>&1; echo $? > /tmp/seed_check.rc)
 git -C /repo checkout -- .
+cp /tmp/seed_evidence_keep.json /verif/evidence/$PROP.json 2>/dev/null; rm -f /tmp/seed_evidence_keep.json
 head -5 /tmp/seed_check.log; echo "check rc=$(cat /tmp/seed_check.rc)"
 python3 - "$OUT" "$ID" "$PROP" "$SUITE" <<'PY'
 import json,sys,os,glob
